@@ -73,6 +73,17 @@ Seeds == {
   [id |-> "upload_evil_name", doc |-> Request("POST", "/form-multipart-enctype-post-method", "HTTP/1.1",
                               <<Host, Hdr("Content-Type", "multipart/form-data; boundary=b1")>>,
                               Tk("body", "--b1\r\nContent-Disposition: form-data; name=\"f\"; filename=\"../outside/evil.txt\"\r\nContent-Type: text/plain\r\n\r\nowned\r\n--b1--\r\n"))],
+  \* uploads with harmless names: a new file, a file that exists in the served directory, a name inside a sub-directory,
+  \* two file parts with a binary one (a server that "keeps" file parts would create or alter these)
+  [id |-> "upload_file_new", doc |-> Request("POST", "/form-multipart-enctype-post-method", "HTTP/1.1",
+                              <<Host, Hdr("Content-Type", "multipart/form-data; boundary=b1")>>,
+                              Tk("body", "--b1\r\nContent-Disposition: form-data; name=\"f\"; filename=\"upload.bin\"\r\nContent-Type: application/octet-stream\r\n\r\nuploaded bytes\r\n--b1--\r\n"))],
+  [id |-> "upload_file_existing", doc |-> Request("POST", "/form-multipart-enctype-post-method", "HTTP/1.1",
+                              <<Host, Hdr("Content-Type", "multipart/form-data; boundary=b1")>>,
+                              Tk("body", "--b1\r\nContent-Disposition: form-data; name=\"f\"; filename=\"a.txt\"\r\nContent-Type: text/plain\r\n\r\nreplaced\r\n--b1--\r\n"))],
+  [id |-> "upload_file_nested", doc |-> Request("POST", "/form-multipart-enctype-post-method", "HTTP/1.1",
+                              <<Host, Hdr("Content-Type", "multipart/form-data; boundary=b1"), Hdr("Content-Length", "181")>>,
+                              Tk("body", "--b1\r\nContent-Disposition: form-data; name=\"note\"\r\n\r\nhello\r\n--b1\r\nContent-Disposition: form-data; name=\"f\"; filename=\"docs/new.html\"\r\nContent-Type: text/html\r\n\r\n<p>new</p>\r\n--b1--\r\n"))],
   [id |-> "upload_init_evil", doc |-> Request("POST", "/file-upload/initiate?name=../outside/evil.bin&lastModified=1&size=9", "HTTP/1.1", <<Host>>, Tk("body", "012345678"))],
   [id |-> "put_new",     doc |-> Request("PUT", "/new.txt", "HTTP/1.1", <<Host, Hdr("Content-Length", "4")>>, Tk("body", "data"))],
   [id |-> "post_dir",    doc |-> Request("POST", "/docs/", "HTTP/1.1", <<Host, Hdr("Content-Type", "application/octet-stream")>>, Tk("body", "blob"))],
